@@ -43,7 +43,7 @@ func checkC10(c *Ctx) {
 	c10model(c, "C10.R4")
 	premiseEqual(c, "C10.R5", "whether a Transformer is the identity must depend on the two references, not on what an earlier use wrote into them")
 	c.Floor("C10.R5", 9)
-	c.Floor("C10.R3", 5)
+	c.Floor("C10.R3", 2)
 	c.Floor("C10.R4", 8)
 	c10proj(c)
 	c08pipeModel(c, "", "", "C10.R1")
